@@ -22,9 +22,25 @@ def derive_asts():
     if "asts" not in _cache:
         out = {}
         for f in derive_files():
-            out[os.path.relpath(f, util.REPO)] = util.syn_ast(f)
+            ast = util.syn_ast(f)
+            prune_cfg_test(ast["items"])
+            out[os.path.relpath(f, util.REPO)] = ast
         _cache["asts"] = out
     return _cache["asts"]
+
+
+def prune_cfg_test(items):
+    """drop `#[cfg(test)]` items: they are not part of the macro crate as users compile it"""
+    keep = []
+    for it in items:
+        if any(a["path"] == "cfg" and A.compact(a["tokens"]) == "test" for a in it.get("attrs", [])):
+            continue
+        if it.get("k") == "mod" and it.get("items") is not None:
+            prune_cfg_test(it["items"])
+        if it.get("k") == "impl":
+            it["items"] = [x for x in it["items"] if not any(a["path"] == "cfg" and A.compact(a["tokens"]) == "test" for a in x.get("attrs", []))]
+        keep.append(it)
+    items[:] = keep
 
 
 def all_fns(ast):
@@ -366,3 +382,77 @@ def rule_g2(ctx, rule="G2.helper-generic-names"):
                                   "helper type parameters with names a user would not pick (e.g. `SvQuerierC`)", f"`{kind}<.. {first['s']} ..>` next to interpolated user generics",
                                   "a helper type parameter named by a single letter collides with a user's generic of the same name (E0403)")
     return n
+
+
+# ------------------------------------------------------------------ G3 determinism
+
+BANNED_SEGMENTS = {"HashMap", "HashSet", "RandomState", "SystemTime", "Instant", "thread_rng", "OsRng", "DefaultHasher", "temp_dir", "current_dir"}
+BANNED_PREFIXES = [("std", "time"), ("std", "env"), ("std", "fs"), ("std", "process"), ("std", "thread"), ("std", "net"), ("std", "io"),
+                   ("std", "collections", "hash_map"), ("std", "collections", "hash_set"), ("rand",), ("getrandom",), ("fastrand",)]
+REVIEWED_DEPS = {
+    "syn": "parser; pure function of its token input",
+    "quote": "token construction; pure",
+    "proc-macro2": "token types; pure",
+    "convert_case": "string casing; pure (no maps with random state in the public path used)",
+    "proc-macro-error": "diagnostic collection in a thread-local Vec, emitted in insertion order",
+    "proc-macro-crate": "reads the user's Cargo.toml (the documented second input of the expansion)",
+    "itertools": "iterator adaptors; pure",
+}
+
+
+def rule_g3(ctx, rule="G3.determinism"):
+    import tomllib
+    with open(os.path.join(util.REPO, "sylvia-derive", "Cargo.toml"), "rb") as f:
+        man = tomllib.load(f)
+    deps = set(man.get("dependencies", {}))
+    ctx.inst(rule + ".deps", len(deps))
+    for d in sorted(deps - set(REVIEWED_DEPS)):
+        ctx.violation(rule, ["dependency", d], "sylvia-derive/Cargo.toml", f"dependencies reviewed for determinism: {sorted(REVIEWED_DEPS)}", d,
+                      "a dependency of the macro crate that was not reviewed for run-to-run variation")
+    n = 0
+    for rel, ast in derive_asts().items():
+        def visit(node):
+            nonlocal n
+            if not isinstance(node, dict):
+                return
+            if node.get("k") == "path" and "path" in node:
+                segs = [s["id"] for s in node["path"]["segs"]]
+                _check_path(ctx, rule, rel, segs, node.get("ln"))
+                n += 1
+            if node.get("k") == "use":
+                s = node["s"].replace(" ", "")
+                for pre in BANNED_PREFIXES:
+                    if s.startswith("::".join(pre) + "::") or s == "::".join(pre) or ("{" in s and s.startswith(pre[0] + "::") and any(("::".join(pre[1:]) in part) for part in [s]) and len(pre) > 1 and ("::".join(pre) in s or (pre[0] + "::{" in s and pre[1] + "::" in s))):
+                        ctx.violation(rule, [rel, "use", "::".join(pre)], f"{rel}:{node['ln']}", "no import of a source of run-to-run variation", node["s"], "expansion must be a function of its input")
+                for b in BANNED_SEGMENTS:
+                    if re.search(r"\b" + b + r"\b", s):
+                        ctx.violation(rule, [rel, "use", b], f"{rel}:{node['ln']}", "no import of a source of run-to-run variation", node["s"], "expansion must be a function of its input")
+                n += 1
+            if node.get("k") == "static":
+                ts = A.type_str(node["ty"])
+                if node.get("mut") or re.search(r"\b(Cell|RefCell|Mutex|RwLock|Atomic\w*|OnceCell|OnceLock|Lazy|LazyLock)\b", ts):
+                    ctx.violation(rule, [rel, "static", node["name"]], f"{rel}:{node['ln']}", "no mutable / interior-mutable static in the macro crate", ts, "state surviving between expansions")
+                n += 1
+            if node.get("k") == "macro" and node.get("path", "").split("::")[-1] in ("thread_local", "lazy_static", "env", "option_env", "include_str", "include_bytes", "file", "line", "column"):
+                ctx.violation(rule, [rel, "macro", node["path"]], f"{rel}:{node['ln']}", "no environment / location / global-state macro", node["path"], "expansion must be a function of its input")
+            if node.get("k") == "cast" and node.get("x"):
+                t = A.type_str(node["ty"])
+                inner = A.strip_expr(node["expr"])
+                if t in ("usize", "u64", "isize") and inner.get("k") == "cast" and A.type_str(inner["ty"]).startswith("*"):
+                    ctx.violation(rule, [rel, "ptr-cast"], f"{rel}:{node['ln']}", "no pointer-to-integer cast", t, "addresses vary between runs")
+            if node.get("k") == "lit" and node.get("lk") == "str" and "{:p}" in node.get("v", ""):
+                ctx.violation(rule, [rel, "ptr-format"], f"{rel}:{node['ln']}", "no {:p} formatting", node["v"], "addresses vary between runs")
+        A.walk(ast, lambda nd: visit(nd))
+    ctx.inst(rule, n)
+    return n
+
+
+def _check_path(ctx, rule, rel, segs, ln):
+    for b in BANNED_SEGMENTS:
+        if b in segs:
+            ctx.violation(rule, [rel, "path", b], f"{rel}:{ln}", "no use of a source of run-to-run variation", "::".join(segs), "expansion must be a function of its input")
+    for pre in BANNED_PREFIXES:
+        if tuple(segs[:len(pre)]) == pre and len(segs) > len(pre) - (1 if len(pre) == 1 else 0):
+            if pre == ("std", "io"):
+                continue
+            ctx.violation(rule, [rel, "path", "::".join(pre)], f"{rel}:{ln}", "no use of a source of run-to-run variation", "::".join(segs), "expansion must be a function of its input")
